@@ -115,7 +115,12 @@ theorem okAlives_run (hk : ConstsOk k) (hw : WF t) (hl : validLocation cfg.locat
     have hkeys : (keyOf ∘ aliveObs k t cfg target a.start) = fun i => keyM (aliveAt t i) := by
       funext i; rfl
     rw [hkeys]
-    refine ⟨⟨⟨⟨?_, ?_⟩, ?_⟩, ?_⟩, ?_⟩
+    have hms := hk.ann
+    have g : ∀ j, j < n → ((List.range n).map ((fun x => x.time) ∘ aliveObs k t cfg target a.start)).getD j 0
+        = a.start + Int.ofNat (j * k.announceMs) := by
+      intro j hj
+      simp [List.getD, List.getElem?_map, List.getElem?_range hj, aliveObs, obsAlive]
+    refine ⟨⟨⟨⟨⟨?_, ?_⟩, ?_⟩, ?_⟩, ?_⟩, ?_⟩
     · -- first round
       rw [hL, ← List.map_take, List.take_range]
       have : (List.range (min (advertisements t).length n)).map (fun i => keyM (aliveAt t i))
@@ -140,11 +145,6 @@ theorem okAlives_run (hk : ConstsOk k) (hw : WF t) (hl : validLocation cfg.locat
       rw [List.all_eq_true]
       intro i hi
       rw [List.mem_range] at hi
-      have hms := hk.ann
-      have g : ∀ j, j < n → ((List.range n).map ((fun x => x.time) ∘ aliveObs k t cfg target a.start)).getD j 0
-          = a.start + Int.ofNat (j * k.announceMs) := by
-        intro j hj
-        simp [List.getD, List.getElem?_map, List.getElem?_range hj, aliveObs, obsAlive]
       rw [g i (by omega), g (i + 1) (by omega), g 0 (by omega), g 1 (by omega)]
       simp only [Bool.and_eq_true, decide_eq_true_eq, beq_iff_eq]
       have e1 : Int.ofNat ((i + 1) * k.announceMs) = Int.ofNat (i * k.announceMs) + Int.ofNat k.announceMs := by
@@ -187,6 +187,37 @@ theorem okAlives_run (hk : ConstsOk k) (hw : WF t) (hl : validLocation cfg.locat
             rw [e]; omega
         · simp at hts
       · rfl
+    · -- the cycle goes on until the end of the observation
+      have hu : (runCase k cfg target t searches (some a)).annUpto = some a.upto := rfl
+      rw [hu]
+      simp only [Bool.or_eq_true, decide_eq_true_eq, List.length_map, List.length_range]
+      by_cases hn2 : n < 2
+      · left; exact hn2
+      · right
+        rw [g (n - 1) (by omega), g 1 (by omega), g 0 (by omega)]
+        have hn' : ticks k a = n := hn
+        unfold ticks at hn'
+        split at hn'
+        · omega
+        · rename_i hle
+          simp only [Int.ofNat_eq_natCast] at hn' ⊢
+          have hpos : (0 : Int) < (k.announceMs : Int) := by omega
+          have hlt := Int.lt_ediv_add_one_mul_self (a.upto - a.start) hpos
+          have hnn : 0 ≤ (a.upto - a.start) / (k.announceMs : Int) := Int.ediv_nonneg (by omega) (by omega)
+          have h2 := Int.toNat_of_nonneg hnn
+          have e1 : (((n - 1) * k.announceMs : Nat) : Int) = ((n : Int) - 1) * (k.announceMs : Int) := by
+            have : n - 1 + 1 = n := by omega
+            have h3 : ((n - 1 : Nat) : Int) = (n : Int) - 1 := by omega
+            simp [h3]
+          have e2 : ((1 * k.announceMs : Nat) : Int) = (k.announceMs : Int) := by simp
+          have e3 : ((0 * k.announceMs : Nat) : Int) = 0 := by simp
+          rw [e1, e2, e3]
+          have hn'' : (n : Int) = (a.upto - a.start) / (k.announceMs : Int) + 1 := by omega
+          rw [hn'']
+          have : ((a.upto - a.start) / (k.announceMs : Int) + 1 - 1) * (k.announceMs : Int) + ((k.announceMs : Int) - 0)
+              = ((a.upto - a.start) / (k.announceMs : Int) + 1) * (k.announceMs : Int) := by
+            rw [Int.add_mul, Int.add_sub_cancel]; omega
+          omega
 
 theorem okByebyes_run (hw : WF t) (hl : validLocation cfg.location = true)
     (searches : List SearchIn) (ann : Option AnnIn) :
